@@ -5,7 +5,9 @@ import (
 	"go/token"
 	"go/types"
 	"math"
+	"regexp"
 	"sort"
+	"strconv"
 	"strings"
 
 	"gofasta-verif/core"
@@ -276,6 +278,7 @@ func C06(c *core.Ctx) {
 	}
 	c06Score(c, ev0, tabs)
 	c06Fanout(c)
+	c06Writers(c)
 }
 
 // c06Dispatch: the measure string selects the intended distance function.
@@ -478,4 +481,148 @@ func catchmentRuns(streams [][]tgt, maxN int) []catchmentRun {
 		}
 	}
 	return out
+}
+
+var fmtFloatRe = regexp.MustCompile(`<fmtfloat\(([^,()]+),102,9,64\)>`)
+
+// c06Writers: the three result writers on concrete results - header, one row per query in the order given (query file
+// order), the documented columns, distances printed with nine decimals (raw, tn93) or as an integer (snp), names and
+// SNPs joined with ';', one table row per neighbour in rank order.
+func c06Writers(c *core.Ctx) {
+	resT := namedType(c, "pkg/closest", "resultsStruct")
+	catT := namedType(c, "pkg/closest", "catchmentStruct")
+	w1 := c.LookupFunc("pkg/closest", "writeClosest")
+	wN := c.LookupFunc("pkg/closest", "writeClosestN")
+	wT := c.LookupFunc("pkg/closest", "writeClosestNTable")
+	if resT == nil || catT == nil || w1 == nil || wN == nil || wT == nil {
+		c.Und("R6/writers", token.NoPos, "UNRESOLVED anchors closest.writeClosest / writeClosestN / writeClosestNTable")
+		return
+	}
+	type hit struct {
+		t    string
+		d    float64
+		snps []string
+	}
+	mkRes := func(q string, qi int64, h hit) *eval.StructVal {
+		r := absValue(resT, "r", eval.K(0)).(*eval.StructVal)
+		r.F["qname"] = eval.S(q)
+		r.F["qidx"] = eval.K(qi)
+		r.F["tname"] = eval.S(h.t)
+		r.F["completeness"] = eval.K(7)
+		r.F["distance"] = eval.FConst(h.d)
+		var ss []eval.Value
+		for _, x := range h.snps {
+			ss = append(ss, eval.S(x))
+		}
+		r.F["snps"] = eval.NewSlice(ss...)
+		return r
+	}
+	fmtD := func(measure string, d float64) string {
+		if measure == "snp" {
+			return strconv.Itoa(int(d))
+		}
+		return strconv.FormatFloat(d, 'f', 9, 64)
+	}
+	queries := []struct {
+		q    string
+		hits []hit
+	}{
+		{"q/1 first", []hit{{"t2", 0, nil}, {"t0", 3, []string{"1AC", "7GT", "9TA"}}}},
+		{"q2", []hit{{"t1", 2, []string{"4CT", "5AG"}}}},
+		{"q3", []hit{{"t0", 0.000244140625, []string{"2GA"}}, {"t5", 0.5, nil}, {"t1", 12, nil}}},
+	}
+	run := func(fn *types.Func, args ...eval.Value) (string, bool, error) {
+		ev := newEval(c)
+		writes := captureWrites(ev)
+		v, err := ev.CallFuncBound(fn, args...)
+		if err != nil {
+			return "", false, err
+		}
+		var sb strings.Builder
+		for _, s := range *writes {
+			sb.WriteString(s.String())
+		}
+		_, isNil := v.(eval.Nil)
+		// the evaluator keeps strconv.FormatFloat symbolic; a constant printed with ('f', 9, 64) is rendered here, any
+		// other format, precision or bit size stays symbolic and so differs from the expected text
+		text := fmtFloatRe.ReplaceAllStringFunc(sb.String(), func(m string) string {
+			f, err := strconv.ParseFloat(fmtFloatRe.FindStringSubmatch(m)[1], 64)
+			if err != nil {
+				return m
+			}
+			return strconv.FormatFloat(f, 'f', 9, 64)
+		})
+		return text, isNil, nil
+	}
+	var bad []string
+	for _, measure := range []string{"raw", "snp", "tn93"} {
+		// single closest
+		var rs []eval.Value
+		want := "query,closest,distance,SNPs\n"
+		for i, q := range queries {
+			h := q.hits[0]
+			if measure == "snp" {
+				h.d = float64(int(h.d*4) % 5)
+			}
+			rs = append(rs, mkRes(q.q, int64(i), h))
+			want += q.q + "," + h.t + "," + fmtD(measure, h.d) + "," + strings.Join(h.snps, ";") + "\n"
+		}
+		got, isNil, err := run(w1, eval.NewSlice(rs...), eval.S(measure), eval.Opaque{Why: "writer:out"})
+		if err != nil {
+			c.Und("R6/writeClosest", w1.Pos(), "cannot evaluate: %v", err)
+			return
+		}
+		if got != want || !isNil {
+			bad = append(bad, fmt.Sprintf("writeClosest measure=%s writes %q (nil result=%v), want %q", measure, got, isNil, want))
+		}
+		// catchments
+		var cs []eval.Value
+		wantN, wantT := "query,closest\n", "query,target,distance\n"
+		for i, q := range queries {
+			var hs []eval.Value
+			var names []string
+			for _, h := range q.hits {
+				if measure == "snp" {
+					h.d = float64(int(h.d*4) % 5)
+				}
+				hs = append(hs, mkRes(q.q, int64(i), h))
+				names = append(names, h.t)
+				wantT += q.q + "," + h.t + "," + fmtD(measure, h.d) + "\n"
+			}
+			cv := absValue(catT, "c", eval.K(0)).(*eval.StructVal)
+			cv.F["qname"] = eval.S(q.q)
+			cv.F["qidx"] = eval.K(int64(i))
+			cv.F["catchment"] = eval.NewSlice(hs...)
+			cs = append(cs, cv)
+			wantN += q.q + "," + strings.Join(names, ";") + "\n"
+		}
+		got, isNil, err = run(wN, eval.NewSlice(cs...), eval.Opaque{Why: "writer:out"})
+		if err != nil {
+			c.Und("R6/writeClosestN", wN.Pos(), "cannot evaluate: %v", err)
+			return
+		}
+		if got != wantN || !isNil {
+			bad = append(bad, fmt.Sprintf("writeClosestN writes %q (nil result=%v), want %q", got, isNil, wantN))
+		}
+		got, isNil, err = run(wT, eval.NewSlice(cs...), eval.Opaque{Why: "writer:out"}, eval.S(measure))
+		if err != nil {
+			c.Und("R6/writeClosestNTable", wT.Pos(), "cannot evaluate: %v", err)
+			return
+		}
+		if got != wantT || !isNil {
+			bad = append(bad, fmt.Sprintf("writeClosestNTable measure=%s writes %q (nil result=%v), want %q", measure, got, isNil, wantT))
+		}
+	}
+	// a query without any neighbour within the limit still has its row
+	{
+		cv := absValue(catT, "c", eval.K(0)).(*eval.StructVal)
+		cv.F["qname"] = eval.S("lonely")
+		cv.F["qidx"] = eval.K(0)
+		cv.F["catchment"] = eval.NewSlice()
+		got, _, err := run(wN, eval.NewSlice(cv), eval.Opaque{Why: "writer:out"})
+		if err != nil || got != "query,closest\nlonely,\n" {
+			bad = append(bad, fmt.Sprintf("writeClosestN for a query with an empty catchment writes %q (%v), want %q", got, err, "query,closest\nlonely,\n"))
+		}
+	}
+	c.Ob("R6/writers/documented-layout", len(bad) == 0, w1.Pos(), "%s", first(bad, 3))
 }
